@@ -281,7 +281,7 @@ def run(fb, rep, tier):
     # two loop shapes that silently skip work: (a) a for/while condition that is a PRE-decrement of its counter (`--n`) never handles the
     # element 0 and underflows when the count is zero (the idiom of the code base is the post-decrement `n--`); (b) a counting loop
     # `i < v` whose bound v is a local that is still the literal 0 when the loop starts never executes.  Expected count: 0; controls.
-    rep.rule('R19.7', 'no loop condition pre-decrements its counter, no counting loop is bounded by a local that is still 0, no descending subscript loop stops before entry 0', floor=4)
+    rep.rule('R19.7', 'no loop condition pre-decrements its counter, no counting loop is bounded by a local that is still 0', floor=3)
     ctl7 = set()
     n_loops = 0
     for f in fb.funcs.values():
@@ -310,30 +310,11 @@ def run(fb, rep, tier):
                             ctl7.add('zero')
                         else:
                             rep.bad('R19.7', '%s|loop(i < %s)' % (f.name.replace('soplex::', '')[:60], v.n), '%s:%d' % (f.file, n.l), 'the loop is bounded by %s, which is 0 when the loop starts (it is only changed inside the loop): the body never executes' % v.n)
-    # (c) a descending loop that starts at <count> - 1 and runs while the index is > 0 never visits the entry 0
-    for f in fb.funcs.values():
-        isctl = f.name.startswith('verif_ctl::')
-        if not (f.name.startswith('soplex::') or isctl):
-            continue
-        for n in f.nodes:
-            if n.k != 'ForStmt' or n.kid('cond') is None or n.kid('init') is None or n.kid('inc') is None:
-                continue
-            c = strip(n.kid('cond'))
-            if not (c.k == 'BinaryOperator' and c.o == '>' and render(strip(c.kids[1])) == '0'):
-                continue
-            v = render(strip(c.kids[0]))
-            init = render(n.kid('init'))
-            inc = render(n.kid('inc'))
-            if '--' in inc and v in inc and re.search(r'- 1\)*;?$', init.strip()) and any(x.k in ('ArraySubscriptExpr',) and render(strip(x.kids[1])) == v for x in n.kid('body').walk()):
-                if isctl:
-                    ctl7.add('desc')
-                else:
-                    rep.bad('R19.7', '%s|loop(%s > 0)' % (f.name.replace('soplex::', '')[:60], v), '%s:%d' % (f.file, n.l), 'the loop runs from %s down while %s > 0 and subscripts with %s: the entry 0 is never visited' % (init[:40], v, v))
-    if ctl7 != {'predec', 'zero', 'desc'}:
+    # (the third shape - a descending loop that stops before 0 - is the generic shape rule S4, reported under the property that owns the function)
+    if ctl7 != {'predec', 'zero'}:
         raise AnalysisBroken('R19.7 positive controls did not fire (%s)' % sorted(ctl7))
     rep.ok('R19.7', 'control|predecrement_condition', 'units/controls.cpp', 'positive control fires', nontrivial=False)
     rep.ok('R19.7', 'control|zero_bound_loop', 'units/controls.cpp', 'positive control fires', nontrivial=False)
-    rep.ok('R19.7', 'control|descending_skips_zero', 'units/controls.cpp', 'positive control fires', nontrivial=False)
     rep.ok('R19.7', 'scan|for/while loops', 'src', '%d loops scanned' % n_loops, nontrivial=False)
 
     # ------------------------------------------------------------------ R19.8
